@@ -138,7 +138,7 @@ def observe(seed, tier):
         return json.load(open(cpath))
     t0 = time.time()
     quick = tier == "quick"
-    pars, r = progen_par.gen_pars(seed, 48 if quick else 300)
+    pars, r = progen_par.gen_pars(seed, 48 if quick else 1200)
     mod = common.make_gen_module("par-%d-%s" % (seed, tier))
     gdir = os.path.join(mod, "gen")
     os.makedirs(gdir)
